@@ -10,8 +10,8 @@ TRAPS = {-1: "integer divide by zero", -2: "integer overflow", -3: "invalid conv
 
 # per-tier harness parameters: (classes, crossed-core budget, random tuples, constant-mode calls, exhaustive 8-bit lanes)
 TIERS = {
-    "quick": dict(classes="int", budget=140, rand=30, const=24, ex8=False),
-    "thorough": dict(classes="int", budget=1200, rand=1500, const=200, ex8=True),
+    "quick": dict(classes="int,float", budget=140, rand=30, const=24, ex8=False),
+    "thorough": dict(classes="int,float", budget=1200, rand=1500, const=200, ex8=True),
 }
 
 
